@@ -4,7 +4,7 @@ import CbiVerif.Lemmas.MacroObj
 namespace CbiVerif.MX
 open CbiVerif.PP
 
-theorem popAll_ok_len (adv : Bool) : ∀ (rest : List Helper) (top : Helper) (ne : List String) (t : Helper) (r : List Helper) (n : List String),
+theorem popAll_ok_len (adv : Bool) : ∀ (rest : List Helper) (top : Helper) (ne : NoExp) (t : Helper) (r : List Helper) (n : NoExp),
     popAll adv top rest ne = .ok t r n → r.length ≤ rest.length := by
   intro rest
   induction rest with
@@ -25,7 +25,7 @@ theorem popAll_ok_len (adv : Bool) : ∀ (rest : List Helper) (top : Helper) (ne
         simp only [List.length_cons]; omega
     · cases h; exact Nat.le_refl _
 
-theorem popAll_eop_len (adv : Bool) : ∀ (rest : List Helper) (top : Helper) (ne : List String) (t : Helper) (r : List Helper) (n : List String),
+theorem popAll_eop_len (adv : Bool) : ∀ (rest : List Helper) (top : Helper) (ne : NoExp) (t : Helper) (r : List Helper) (n : NoExp),
     popAll adv top rest ne = .eop t r n → r.length ≤ rest.length := by
   intro rest
   induction rest with
@@ -46,7 +46,7 @@ theorem popAll_eop_len (adv : Bool) : ∀ (rest : List Helper) (top : Helper) (n
         simp only [List.length_cons]; omega
     · cases h
 
-theorem consume_ok_len (adv : Bool) (top : Helper) (rest : List Helper) (ne : List String) (x : Tok) (t : Helper) (r : List Helper) (n : List String)
+theorem consume_ok_len (adv : Bool) (top : Helper) (rest : List Helper) (ne : NoExp) (x : Tok) (t : Helper) (r : List Helper) (n : NoExp)
     (h : consume adv top rest ne = .ok x t r n) : r.length ≤ rest.length := by
   unfold consume at h
   split at h
@@ -56,7 +56,7 @@ theorem consume_ok_len (adv : Bool) (top : Helper) (rest : List Helper) (ne : Li
     · cases h; exact popAll_ok_len adv _ _ _ _ _ _ hp
     · cases h
 
-theorem consume_eop_len (adv : Bool) (top : Helper) (rest : List Helper) (ne : List String) (t : Helper) (r : List Helper) (n : List String)
+theorem consume_eop_len (adv : Bool) (top : Helper) (rest : List Helper) (ne : NoExp) (t : Helper) (r : List Helper) (n : NoExp)
     (h : consume adv top rest ne = .eop t r n) : r.length ≤ rest.length := by
   unfold consume at h
   split at h
@@ -66,8 +66,8 @@ theorem consume_eop_len (adv : Bool) (top : Helper) (rest : List Helper) (ne : L
     · cases h
     · cases h
 
-theorem collectArgs_ok_len (adv : Bool) : ∀ (fuel : Nat) (top : Helper) (rest : List Helper) (ne : List String) (args : List (List Tok)) (cur : List Tok) (depth : Nat)
-    (a : List (List Tok)) (t : Helper) (r : List Helper) (n : List String),
+theorem collectArgs_ok_len (adv : Bool) : ∀ (fuel : Nat) (top : Helper) (rest : List Helper) (ne : NoExp) (args : List (List Tok)) (cur : List Tok) (depth : Nat)
+    (a : List (List Tok)) (t : Helper) (r : List Helper) (n : NoExp),
     collectArgs adv fuel top rest ne args cur depth = .ok a t r n → r.length ≤ rest.length := by
   intro fuel
   induction fuel with
@@ -90,8 +90,8 @@ theorem collectArgs_ok_len (adv : Bool) : ∀ (fuel : Nat) (top : Helper) (rest 
             · exact Nat.le_trans (ih _ _ _ _ _ _ _ _ _ _ h) hl
           · exact Nat.le_trans (ih _ _ _ _ _ _ _ _ _ _ h) hl
 
-theorem collectArgs_eop_len (adv : Bool) : ∀ (fuel : Nat) (top : Helper) (rest : List Helper) (ne : List String) (args : List (List Tok)) (cur : List Tok) (depth : Nat)
-    (t : Helper) (r : List Helper) (n : List String),
+theorem collectArgs_eop_len (adv : Bool) : ∀ (fuel : Nat) (top : Helper) (rest : List Helper) (ne : NoExp) (args : List (List Tok)) (cur : List Tok) (depth : Nat)
+    (t : Helper) (r : List Helper) (n : NoExp),
     collectArgs adv fuel top rest ne args cur depth = .eop t r n → r.length ≤ rest.length := by
   intro fuel
   induction fuel with
@@ -137,7 +137,7 @@ theorem processArgs_inv (c : Cfg) (pw : Bool) (m : Macro) : ∀ (todo : List (Li
         · cases h; simp only [List.length_cons]; omega
     · exact ih _ _ _ hl h
 
-theorem replaceTop_inv (adv : Bool) (top : Helper) (rest : List Helper) (ne : List String) (frames : List Frame) (x : Tok) (s' : MS)
+theorem replaceTop_inv (adv : Bool) (top : Helper) (rest : List Helper) (ne : NoExp) (frames : List Frame) (x : Tok) (s' : MS)
     (h : replaceTop adv top rest ne frames x = .cont s') : s'.stack.length ≤ rest.length + 1 := by
   unfold replaceTop at h
   split at h
